@@ -17,7 +17,7 @@ RULE = ("Generated training runs: state type (3), n 1..3, N 1..9 rows (bases per
         "energy gradient over v_k; theta_{t+1} = theta_t - lr_t*grad_t; one step per batch; lr constant within an epoch and "
         "multiplied by gamma exactly once between epochs. Non-trivial = neg_batch_size != pos_batch_size, N not a multiple of "
         "the batch size, k >= 1, >= 2 steps and (complex/density) a rotated row present.")
-RULE_EXT = ('Extended as built: up to three consecutive fit() stages (optionally reinitialising in between) on the same state, optimizer_args dict must be unchanged, positive batches must be data rows, neg_batch_size up to 300, polarised parameters / rare outcomes, runs stopped by a divergence guard are counted as excluded.')
+RULE_EXT = ('Extended as built: up to three consecutive fit() stages (optionally reinitialising in between) on the same state, optimizer_args dict must be unchanged, positive batches must be data rows, neg_batch_size up to 300, polarised parameters / rare outcomes, runs stopped by a divergence guard are counted as excluded. Rounds 5-6: momentum / weight-decay optimizer_args with the reference recursion (fresh buffers per fit), StepLR(2) and ExponentialLR schedulers, uniformly negative polarised biases with a forced rare outcome in a basis with exactly one rotated site, num_aux = 0.')
 RULE = RULE + " " + RULE_EXT
 ASSUMPTIONS = ["outcomes drawn from the reference Born distribution at the initial parameters; a run is only followed while the reference gradient stays finite and < 1e6",
                "gradient tolerance 1e-6*(1+max|g_ref|), SGD update rtol 1e-12 (fused add differs from b - lr*g by 1 ulp)"]
@@ -236,7 +236,7 @@ def check(case):
             rotated_seen = rotated_seen or set(bstr) != {"Z"}
         pos = ref_grads(sc_t, brows, with_Z=False, mean=True)
         neg = energy_grad_mean(sc_t, vk)
-        mx = max(float(v.abs().max()) for d in pos.values() for v in d.values())
+        mx = max(float(v.abs().max()) for d in pos.values() for v in d.values() if v.numel() > 0)
         if not np.isfinite(mx) or mx > 1e6:
             excluded += len(steps) - ti
             break
@@ -246,7 +246,7 @@ def check(case):
                 want = pos[key][NAMES[pn]].reshape(g.shape)
                 if net == "rbm_am":
                     want = want - neg[NAMES[pn]].reshape(g.shape)
-                tol = 1e-6 * (1 + float(want.abs().max()))
+                tol = 1e-6 * (1 + (float(want.abs().max()) if want.numel() else 0.0))
                 require(bool(torch.all((g.double() - want).abs() <= tol)), f"cd-gradient:{net}.{pn}",
                         f"step {ti}: gradient handed to the optimizer for {net}.{pn} is not positive phase"
                         + (" minus the mean energy gradient of the k-step chain states" if net == "rbm_am" else " only"),
